@@ -14,7 +14,8 @@
 //
 // `run` is a supervisor: the ops are executed by a child process (`runchild`) whose address space is limited,
 // because `make([]int, l)` with a hostile `l` can abort the process (fatal error: out of memory), which recover
-// cannot catch. The op on which the child died is reported as `panic` and the rest continues in a new child
+// cannot catch. The op on which the child died is reported as `panic` and the rest continues in a new child; an op
+// exceeding its 2 s deadline is reported as `hang` and the child is replaced as well
 // (the ops since the last `reset` are replayed silently first).
 package main
 
@@ -316,9 +317,26 @@ func (im *impl) op(t []string) (res string) {
 func runChild() {
 	lim := uint64(4 << 30)
 	_ = syscall.Setrlimit(syscall.RLIMIT_AS, &syscall.Rlimit{Cur: lim, Max: lim})
-	debug.SetMemoryLimit(1 << 30)
+	debug.SetMemoryLimit(3 << 30)
 	im := &impl{s: sr.NewSerde()}
-	hx.RunLines(20*time.Second, im.op)
+	sc := bufio.NewScanner(os.Stdin)
+	sc.Buffer(make([]byte, 1<<20), 1<<28)
+	for sc.Scan() {
+		line := strings.TrimSpace(sc.Text())
+		if line == "" {
+			continue
+		}
+		t := strings.Fields(line)
+		res := hx.Guard(2*time.Second, func() string { return im.op(t) })
+		hx.Emit("%s | %s", line, res)
+		if res == "hang" {
+			// the abandoned goroutine may still be allocating: continue in a fresh process
+			hx.Emit("#restart")
+			hx.Flush()
+			os.Exit(0)
+		}
+		hx.Flush()
+	}
 }
 
 // ---------------------------------------------------------------- supervisor
@@ -334,7 +352,13 @@ func supervise() {
 		}
 	}
 	out := make([]string, len(ops))
-	dead := map[int]bool{}
+	dead := make([]bool, len(ops)) // ops never fed again: they killed a child, or hung (their output is recorded)
+	next := func(j int) int {
+		for j < len(ops) && dead[j] {
+			j++
+		}
+		return j
+	}
 	self, _ := os.Executable()
 	start := 0
 	for start < len(ops) {
@@ -342,59 +366,72 @@ func supervise() {
 		for r > 0 && ops[r] != "reset" {
 			r--
 		}
-		var feed []int
-		for j := r; j < len(ops); j++ {
-			if !dead[j] {
-				feed = append(feed, j)
-			}
-		}
 		cmd := exec.Command(self, "runchild")
-		var in bytes.Buffer
-		for _, j := range feed {
-			in.WriteString(ops[j])
-			in.WriteByte('\n')
-		}
-		cmd.Stdin = &in
 		var errb bytes.Buffer
 		cmd.Stderr = &errb
+		stdin, _ := cmd.StdinPipe()
 		pipe, _ := cmd.StdoutPipe()
 		if err := cmd.Start(); err != nil {
 			fmt.Fprintln(os.Stderr, "cannot start child:", err)
 			os.Exit(3)
 		}
+		wdone := make(chan struct{})
+		go func() { // feeds the ops lazily; ends with a write error when the child dies
+			defer close(wdone)
+			w := bufio.NewWriterSize(stdin, 1<<16)
+			for j := next(r); j < len(ops); j = next(j + 1) {
+				if _, err := w.WriteString(ops[j] + "\n"); err != nil {
+					return
+				}
+			}
+			w.Flush()
+			stdin.Close()
+		}()
 		rd := bufio.NewScanner(pipe)
 		rd.Buffer(make([]byte, 1<<20), 1<<28)
-		n := 0
+		cur, last := next(r), -1
+		restart := false
 		for rd.Scan() {
 			l := rd.Text()
+			if l == "#restart" {
+				restart = true
+			}
 			if strings.HasPrefix(l, "#") || strings.TrimSpace(l) == "" {
 				continue
 			}
-			if n < len(feed) {
-				if feed[n] >= start {
-					out[feed[n]] = l
+			if cur < len(ops) {
+				if cur >= start {
+					out[cur] = l
 				}
-				n++
+				last = cur
+				cur = next(cur + 1)
 			}
 		}
 		_ = cmd.Wait()
-		if n >= len(feed) {
+		stdin.Close()
+		<-wdone
+		if cur >= len(ops) {
 			break
 		}
-		d := feed[n]
-		if d < start { // died while replaying state: cannot make progress
-			fmt.Fprintln(os.Stderr, "child died during replay of", ops[d], "\n", tail(errb.String()))
+		if restart && last >= start { // deliberate exit after a `hang`: go on with the next op
+			hx.St.Inc("death.restart-after-hang")
+			dead[last] = true
+			start = cur
+			continue
+		}
+		if cur < start { // died while replaying state: cannot make progress
+			fmt.Fprintln(os.Stderr, "child died during replay of", ops[cur], "\n", tail(errb.String()))
 			os.Exit(3)
 		}
-		dead[d] = true
-		out[d] = ops[d] + " | panic"
+		dead[cur] = true
+		out[cur] = ops[cur] + " | panic"
 		if strings.Contains(errb.String(), "out of memory") {
 			hx.St.Inc("death.fatal-out-of-memory")
 		} else {
 			hx.St.Inc("death.other")
-			fmt.Fprintln(os.Stderr, "child died on", ops[d], "\n", tail(errb.String()))
+			fmt.Fprintln(os.Stderr, "child died on", ops[cur], "\n", tail(errb.String()))
 		}
-		start = d + 1
+		start = cur + 1
 	}
 	for i, l := range out {
 		if l == "" {
@@ -607,8 +644,17 @@ func emitStateless(format string, a ...any) {
 var hostileCounts = []int64{-1, -2, -9223372036854775808, 1 << 45, 1<<45 + 1, 1 << 50, 1 << 62, 9223372036854775807,
 	1 << 40, 1 << 33, 1<<29 + 1, 5, 300, 70000, 1 << 20}
 
+// mixSeed decorrelates adjacent seeds (hx.NewRng's state is linear in the seed with the same increment as its
+// step, so seed k+1 would be the stream of seed k shifted by one draw).
+func mixSeed(s uint64) uint64 {
+	z := s*0xD6E8FEB86659FD93 + 0xC36C36C36C36
+	z = (z ^ (z >> 32)) * 0xD6E8FEB86659FD93
+	z = (z ^ (z >> 29)) * 0x94D049BB133111EB
+	return z ^ (z >> 32)
+}
+
 func gen(a hx.Args) {
-	r := hx.NewRng(a.Seed)
+	r := hx.NewRng(mixSeed(a.Seed))
 	thorough := a.Tier == "thorough"
 	// 1. boundary grid of header encodings and round trips
 	grid := [][]int64{{}, {0}, {1}, {-1}, {63}, {64}, {-64}, {-65}, {0, 0}, {0, 1}, {1, 0}, {64, 63}, {2147483647, -2147483648},
